@@ -112,11 +112,17 @@ func (c *MustacheTemplate) GetVariable(variables map[string]string, name string)
 
 	name = strings.ToLower(name)
 	var result *string = nil
+	resultName := ""
 
 	for propName, propValue := range variables {
 		if strings.ToLower(propName) == name {
-			result = &propValue
-			break
+			// Names may differ by letter case only: the smallest one wins,
+			// so that the choice does not depend on the map iteration order
+			if result == nil || propName < resultName {
+				value := propValue
+				result = &value
+				resultName = propName
+			}
 		}
 	}
 
